@@ -13,9 +13,9 @@ CLAIMED = {
             "The race pass is sampled, so `exhaustive` is false for the check as a whole (counter scheduled_part_exhaustive_at_bound says whether the model-checked part completed); at most 2 readers; sequential consistency of atomics assumed.",
             "DESIGN.md 6/C07, 13"),
     "C09": ("model_checking", "H",
-            "exhaustive enumeration of operation sequences against one reference model (allow predicate, then LRU set with refresh-on-hit and explicit removal) on three layers: the LRU object (test-only export via the overlay) at capacities 1..3, every sequence of 6 (quick) / 7 (thorough) update/remove operations; the real receiver at its real capacity 64 after three fill-prefix variants, every sequence of <=3/4 operations over 9 (announce oldest / second-oldest / newest / fresh / from a denied peer / evicted, un-cache), delivery decided by quiescence in a synctest bubble; every address list of <=2/3 over 12 addresses with filtering on/off",
-            "Every sequence is an execution of the real code (1.3 M quick), compared step by step with the model: return values and length of the LRU, delivered / not delivered and the CID and peer carried for the receiver, delivered addresses against net.IP predicates. Recency refresh on a hit, the order allow-check -> cache, the eviction order and the constant 64 only show over histories longer than the duplicate cache, which one duplicate-and-one-eviction test does not sample.",
-            "Reference model trusted (30 lines); receiver without pubsub: attribution of republished pubsub messages and ignoring own republications are NOT covered (would need a multi-identity pubsub topic with delivery order guarantees; documented residue).",
+            "exhaustive enumeration of operation sequences against one reference model (allow predicate, then LRU set with refresh-on-hit and explicit removal) on three layers: the LRU object (test-only export via the overlay) at capacities 1..3, every sequence of 6 (quick) / 7 (thorough) update/remove operations; the real receiver at its real capacity 64 after three fill-prefix variants, every sequence of <=3/4 operations over 9 (announce oldest / second-oldest / newest / fresh / from a denied peer / evicted, un-cache), delivery decided by quiescence in a synctest bubble; every address list of <=2/3 over 12 addresses with filtering on/off; the pubsub path: every sequence of <=2/3 messages over 10 kinds (plain, republished by a relay for an allowed / a denied origin, from a denied peer, own republication, malformed, direct with resend, repeats) on a single-host gossipsub topic in a bubble",
+            "Every sequence is an execution of the real code (1.3 M quick), compared step by step with the model: return values and length of the LRU, delivered / not delivered and the CID and peer carried for the receiver, delivered addresses against net.IP predicates. Recency refresh on a hit, the order allow-check -> cache, the eviction order and the constant 64 only show over histories longer than the duplicate cache, which one duplicate-and-one-eviction test does not sample; non-delivery on the pubsub path (own republications, denied original peers) is decided by quiescence, which no timeout-based test can do.",
+            "Reference model trusted (30 lines); pubsub path on one host with injected author identities (multi-host gossip not driven); third-party goroutines left after teardown are counted, only a goroutine with a library frame is a violation.",
             "DESIGN.md 6/C09, 13"),
     "C06": ("model_checking", "H",
             "exhaustive enumeration of operation sequences (depth 5 over a 12-symbol alphabet quick, 21-symbol thorough: per-source content changes incl. regress and disappearance, source failures, Refresh, Refresh cancelled at each source, overlapping Refresh, lookups that hit / miss / hit a negative entry, List, TTL advances), each executed on a fresh real ProviderCache with two fake sources in a synctest bubble (virtual clock) and compared after every step with a reference model",
